@@ -7,7 +7,9 @@ for f in sorted(glob.glob('/verif/seeded/*/meta.json')):
     name = f.split('/')[3]
     t = d['checks_run']
     low = t.lower()
-    if 'not claimed' in low:
+    if low.startswith('not reached'):
+        c = 'no (limit of the seam)'
+    elif 'not claimed' in low:
         c = 'not claimed'
     elif 'missed' in low or '(before)' in low or 'after strengthening' in low or 'after adding' in low:
         c = 'after strengthening'
@@ -18,8 +20,9 @@ for f in sorted(glob.glob('/verif/seeded/*/meta.json')):
     esc = lambda s: s.replace('|', '\\|').replace('\n', ' ')
     rows.append((name, w, esc(d['change']), esc(d['needs_to_manifest']), c, esc(t)))
 n = len(rows)
-cnt = {k: sum(1 for r in rows if r[4] == k) for k in ('yes', 'after strengthening', 'not claimed')}
+cnt = {k: sum(1 for r in rows if r[4] == k) for k in ('yes', 'after strengthening', 'not claimed', 'no (limit of the seam)')}
 waves = {w: sum(1 for r in rows if r[1] == w) for w in sorted(set(r[1] for r in rows))}
+lastwave = max(int(w) for w in waves)
 head = f"""## 10. Seeded-defect results
 
 Every change below was written by a sub-agent in its own scratch worktree, was confirmed in a
@@ -30,14 +33,14 @@ without reference to what the generators draw). Wave 4 ({waves.get('4',0)} chang
 purpose and is marked as such: those agents were additionally told, in prose, which
 configurations, shapes, sizes and fault kinds the generators draw and were asked for changes such
 a checker would still miss - they are adversarial to the machinery, not independent of it. Wave 5
-({waves.get('5',0)} changes) and waves 6 to 18 ({waves.get('6',0)}+{waves.get('7',0)}+{waves.get('8',0)}+{waves.get('9',0)}+{waves.get('10',0)}+{waves.get('11',0)}+{waves.get('12',0)}+{waves.get('13',0)}+{waves.get('14',0)}+{waves.get('15',0)}+{waves.get('16',0)}+{waves.get('17',0)}+{waves.get('18',0)} changes) went back to the property text alone (plus the list of earlier
+({waves.get('5',0)} changes) and waves 6 to {lastwave} ({'+'.join(str(waves.get(str(w),0)) for w in range(6,lastwave+1))} changes) went back to the property text alone (plus the list of earlier
 changes to avoid).
 "yes" = caught by the quick tier of the machinery as it was when the change arrived; "after
 strengthening" = first missed, then caught after the generator or oracle was extended (the last
 column says what was missing); "not claimed" = the change does not violate the property as stated
 (reason given) and no check is expected to flag it. `/verif/seedtest seeded/<name>` re-runs the
 confirmation and the check against a scratch worktree (never /repo). {n} changes: {cnt['yes']} caught at
-once, {cnt['after strengthening']} after strengthening, {cnt['not claimed']} not claimed, none currently missed. The recurring lesson of
+once, {cnt['after strengthening']} after strengthening, {cnt['not claimed']} not claimed, {cnt['no (limit of the seam)']} not reached because it lives behind a stubbed seam (marked "no" in the table). The recurring lesson of
 waves 1-3 was that misses came from the *generator* (a configuration, data shape, name, size or
 history class that was never drawn), not from the scheduler or the oracles; wave 4 added two oracle
 gaps (a fresh-instance oracle that shares process state with the instance under test; ranking
@@ -95,7 +98,12 @@ shape classes (time values held in a zone other than UTC, an untagged time field
 one, operands copied by one Duplicate, SMMA periods in either order); wave 18 one defect of a
 stub (the simulated SQL driver had no transactions) and value classes (a bar that is not a
 number, zero members left out by the simulated Tiingo server, old file time stamps, the negative
-zero, divisors that are no powers of two, early years, Appends of more than 1000 snapshots).
+zero, divisors that are no powers of two, early years, Appends of more than 1000 snapshots);
+wave 19 the first two changes that sit behind a seam (the connection pool of net/http behind the
+simulated transport, a rename across file systems behind the one-device file seam: "no", see
+section 9) and six value and shape classes (element types of a numeric kind with their own JSON
+form, files older than their rows, integer instantiations of Sqrt, a linked asset file, strategy
+windows of 1, committees of 9-20 members, rows with a close but no high and low).
 
 | seeded change | wave | what it does | needs | caught at once? | check and verdict |
 |---|---|---|---|---|---|
